@@ -77,6 +77,51 @@ pub fn http_clone(bytes: &[u8], script: Vec<SItem>, retries: u32) -> Result<Vec<
     r.unwrap_or_else(|_| Err("PANIC".to_string()))
 }
 
+
+/// decompress with the same output bound as the implementation (source size)
+fn brotli_decompress_limited(p: &[u8], limit: usize) -> Option<Vec<u8>> {
+    struct Lim { buf: Vec<u8>, limit: usize }
+    impl std::io::Write for Lim {
+        fn write(&mut self, d: &[u8]) -> std::io::Result<usize> {
+            if d.len() > self.limit - self.buf.len() { return Err(std::io::Error::new(std::io::ErrorKind::InvalidData, "too large")); }
+            self.buf.extend_from_slice(d);
+            Ok(d.len())
+        }
+        fn flush(&mut self) -> std::io::Result<()> { Ok(()) }
+    }
+    let mut out = Lim { buf: vec![], limit };
+    let mut inp = p;
+    brotli_decompressor::BrotliDecompress(&mut inp, &mut out).ok()?;
+    Some(out.buf)
+}
+
+/// `aclone` model line for archive bytes whose header parses: hash and codec oracle tables for every
+/// descriptor's stored range (as found in these bytes, tampered or not)
+pub fn aclone_line(bytes: &[u8]) -> Option<String> {
+    if bytes.len() < 14 { return None; }
+    let ds = u64::from_le_bytes(bytes[6..14].try_into().unwrap()) as usize;
+    let hl = 14usize.checked_add(ds)?.checked_add(72)?;
+    if hl > bytes.len() { return None; }
+    let d = crate::archive::parse_dict_lenient(&bytes[14..14 + ds])?;
+    let off = u64::from_le_bytes(bytes[14 + ds..14 + ds + 8].try_into().unwrap());
+    let mut tab = vec![];
+    let mut seen = std::collections::HashSet::new();
+    for x in &d.descs {
+        let a = off.checked_add(x.archive_offset)? as usize;
+        let e = a.checked_add(x.archive_size as usize)?;
+        if e > bytes.len() { continue; }
+        let p = &bytes[a..e];
+        if !seen.insert(p.to_vec()) { continue; }
+        let dec = brotli_decompress_limited(p, x.source_size as usize);
+        tab.push(format!("{}={}={}={}", hex(p), hex(&b2(p)), match &dec { Some(v) => hex(v), None => "!".into() }, match &dec { Some(v) => hex(&b2(v)), None => "-".into() }));
+    }
+    Some(format!("aclone {} {} {}", hex(bytes), hex(&b2(&bytes[..14 + ds + 8])), if tab.is_empty() { "-".into() } else { tab.join(";") }))
+}
+
+pub fn aclone_impl(r: &Result<Vec<u8>, String>) -> String {
+    match r { Ok(b) => format!("OK {}", hex(b)), Err(_) => "ERR".into() }
+}
+
 fn brotli(level: u32, d: &[u8]) -> Vec<u8> {
     bitar::Chunk::from(d.to_vec()).compress(Some(Compression::brotli(level).unwrap())).unwrap().data().to_vec()
 }
@@ -170,11 +215,13 @@ pub fn suite_conform(dir: &str, seed: u64, thorough: bool, st: &mut Stats) {
             }
         }
         // cloned to exactly the source
-        match lib_clone(&bytes, &[]) {
-            Ok(got) if got == src => {}
+        let cl = lib_clone(&bytes, &[]);
+        match &cl {
+            Ok(got) if *got == src => {}
             Ok(_) => st.violation("C17", "a conforming archive is cloned to something else than its source", &line),
             Err(e) => st.violation("C17", &format!("a conforming archive is not cloned: {}", e), &line),
         }
+        if let Some(al) = aclone_line(&bytes) { out.push(&al, &aclone_impl(&cl)); }
         if i % 10 == 0 {
             match http_clone(&bytes, vec![], 0) {
                 Ok(got) if got == src => {}
@@ -188,7 +235,9 @@ pub fn suite_conform(dir: &str, seed: u64, thorough: bool, st: &mut Stats) {
 
 pub fn suite_corrupt(dir: &str, seed: u64, thorough: bool, st: &mut Stats) {
     let mut rng = Rng::new(seed ^ 0xa2);
-    let out = SuiteOut::new(dir, "corrupt");
+    let mut out = SuiteOut::new(dir, "corrupt");
+    let model_lines: std::cell::RefCell<Vec<(String, String)>> = std::cell::RefCell::new(vec![]);
+    let lines_emitted = std::cell::Cell::new(0usize);
     let narch = if thorough { 40 } else { 6 };
     for ai in 0..narch {
         let cfg = crate::chunking::gen_cfg(&mut rng, true);
@@ -201,6 +250,14 @@ pub fn suite_corrupt(dir: &str, seed: u64, thorough: bool, st: &mut Stats) {
             st.evaluations += 1;
             st.oracle_checks += 1;
             let r = lib_clone(m, &seeds);
+            // model tie (without seeds): open + clone of the same bytes
+            if !in_header && what != "truncation" && lines_emitted.get() < 400 {
+                if let Some(al) = aclone_line(m) {
+                    let r0 = if seeds.is_empty() { r.clone() } else { lib_clone(m, &[]) };
+                    model_lines.borrow_mut().push((al, aclone_impl(&r0)));
+                    lines_emitted.set(lines_emitted.get() + 1);
+                }
+            }
             let replay = format!("corrupt {} {} {}", what, hex(&src), hex(m));
             match &r {
                 Ok(got) if *got != src => st.violation("C04", &format!("{}: clone reported success with different output", what), &replay),
@@ -249,7 +306,9 @@ pub fn suite_corrupt(dir: &str, seed: u64, thorough: bool, st: &mut Stats) {
             st.count(&format!("corrupt/http/{}", if r.is_ok() { "ok-identical" } else { "rejected" }));
         }
         st.sample(format!("corrupt archive#{} {} src={}B archive={}B seeds={}", ai, c.cfg.line(), src.len(), bytes.len(), seeds.len()));
+        lines_emitted.set(0);
     }
+    for (c, i) in model_lines.borrow().iter() { out.push(c, i); }
     out.finish();
 }
 
